@@ -642,22 +642,22 @@ Proof.
     rewrite rev_length, Nat.sub_diag. reflexivity.
 Qed.
 
-Lemma find_proc_spec id rh : forall i j below, length rh = i -> find_proc id rh i = Some (j, below) ->
+Lemma find_proc_spec a rh : forall i j below, length rh = i -> find_proc a rh i = Some (j, below) ->
   j < i /\ length below = j /\ exists pre, rh = pre ++ below /\ length pre = i - j.
 Proof.
   induction rh as [|e r IH]; intros i j below Hl H; cbn in Hl; subst i; cbn [find_proc length] in H; [discriminate|].
-  assert (Hrec : find_proc id r (length r) = Some (j, below) -> j < S (length r) /\ length below = j /\ exists pre, e :: r = pre ++ below /\ length pre = S (length r) - j).
+  assert (Hrec : find_proc a r (length r) = Some (j, below) -> j < S (length r) /\ length below = j /\ exists pre, e :: r = pre ++ below /\ length pre = S (length r) - j).
   { intros H'. destruct (IH (length r) j below eq_refl H') as (H1 & H2 & pre & E & Hp). split; [lia|]. split; [exact H2|].
     exists (e :: pre). split; [rewrite E; reflexivity|cbn [length]; lia]. }
-  destruct e as [m|m]; [apply Hrec; exact H|]. destruct (Pos.eqb (wm_id m) id); [|apply Hrec; exact H].
+  destruct e as [m|m]; [apply Hrec; exact H|]. destruct (wmsg_eqb m a); [|apply Hrec; exact H].
   injection H as <- <-. split; [lia|]. split; [reflexivity|]. exists [EProc m]. split; [reflexivity|cbn [length]; lia].
 Qed.
 
-Lemma anti_index_bnd id hist k : anti_index id hist = Some k -> bnd hist k /\ k <= length hist.
+Lemma anti_index_bnd a hist k : anti_index a hist = Some k -> bnd hist k /\ k <= length hist.
 Proof.
-  unfold anti_index. destruct (find_proc id (rev hist) (length hist)) as [[j below]|] eqn:Ef; [|discriminate].
+  unfold anti_index. destruct (find_proc a (rev hist) (length hist)) as [[j below]|] eqn:Ef; [|discriminate].
   intros H. injection H as <-.
-  destruct (find_proc_spec id (rev hist) (length hist) j below (rev_length hist) Ef) as (Hj & Hlb & pre & E & Hp).
+  destruct (find_proc_spec a (rev hist) (length hist) j below (rev_length hist) Ef) as (Hj & Hlb & pre & E & Hp).
   destruct (group_start_bnd below j Hlb) as [Hk Hb].
   assert (Eh : hist = rev below ++ rev pre) by (rewrite <- (rev_involutive hist), E, rev_app_distr; reflexivity).
   split; [|lia]. rewrite Eh. apply bnd_app; [exact Hb|rewrite rev_length; lia].
